@@ -5,6 +5,7 @@ helper lemmas are in Lemmas*.lean.
 import BV.C05.Lemmas
 import BV.C05.Lemmas2
 import BV.C05.Lemmas3
+import BV.C05.Lemmas4
 import BV.Generated.C05
 namespace BV.C05
 open Treap
@@ -87,6 +88,23 @@ theorem treap_refines_map (ops : List (TOp Key Val)) :
 
 example : SortedKeys cmpB (put cmpB [1] [2] 7 (.nil : Treap Key Val)).toList :=
   (treap_put_spec .nil [1] [2] 7 List.Pairwise.nil).2
+
+/-- Balance invariant, first half: `put` keeps the min-heap order on priorities (with the BST order
+this makes the shape the one of a random binary search tree). -/
+theorem treap_put_heap (t : Treap Key Val) (k : Key) (v : Val) (p : Nat) (h : Lemmas.Heap t) :
+    Lemmas.Heap (put cmpB k v p t) :=
+  Lemmas.put_heap cmpB k v p t h
+
+/-- Balance invariant, second half — it does NOT hold for `Delete`: the Go code rotates the child
+with the LARGER priority up (`left.priority >= right.priority`), although `Put` maintains a min-heap.
+Deleting the root of (1:10) ← (2:5) → (3:7) leaves 1 (priority 10) above 3 (priority 7). Contents and
+order are unaffected (`treap_delete_spec`); only the expected O(log n) depth is lost. Not part of
+property C05's observables; recorded as an observation. -/
+theorem treap_delete_heap_fails :
+    ¬ ∀ (t : Treap Nat Nat) (k : Nat), Lemmas.heapB t = true → Lemmas.heapB (delete cmpNat k t) = true := by
+  intro h
+  have h1 := h Lemmas.heapWitness 2 (by decide)
+  simp [Lemmas.heapWitness, Treap.delete, Treap.merge, Treap.merge.go, cmpNat, Lemmas.heapB] at h1
 
 /-! ### (b) transaction layer -/
 
